@@ -569,7 +569,8 @@ Definition do_act (a : act) (s : st) : list mop * st :=
       if has_core s then
         match var_timer s k v with
         | Some (TI i _ _ _ ci0) =>
-            ([MDropItem ci0; MDelDone], set_timers s (ti_remove (timers s) i))
+            (* the closure leaves the timer set: it is dropped as a closure that sits in no queue *)
+            ([MDropItem (ci_unq ci0); MDelDone], set_timers s (ti_remove (timers s) i))
         | None => ([], emit s (EBool TAG_DEL false))
         end
       else bad s 8
